@@ -98,6 +98,43 @@ Section TrackerCb.
     - exists [], c, (map snd (filter (fun s => trk_event_eqb ev (fst s)) r)). repeat split; auto. intros c0 [].
   Qed.
 
+  (* the registration list: register_callback appends the pair (whatever was registered or removed before -- also the
+     same pair), remove_callback removes its first occurrence and nothing else *)
+  Lemma subscribers_attach b ev cb ev' :
+    subscribers (brk_attach b ev cb) ev' = subscribers b ev' ++ (if trk_event_eqb ev' ev then [cb] else []).
+  Proof.
+    unfold subscribers, brk_attach. rewrite filter_app, map_app. simpl. destruct (trk_event_eqb ev' ev); reflexivity.
+  Qed.
+
+  Lemma attach_subscribed b ev cb : In cb (subscribers (brk_attach b ev cb) ev).
+  Proof.
+    rewrite subscribers_attach. apply in_or_app. right. destruct ev; simpl; auto.
+  Qed.
+
+  Lemma detach_absent b ev cb : ~ In (ev, cb) b -> brk_detach b ev cb = b.
+  Proof.
+    induction b as [|[e c] r IH]; simpl; [reflexivity|]. intros N.
+    destruct (trk_event_eqb ev e && (cb =? c)) eqn:E.
+    - exfalso. apply N. left. apply andb_true_iff in E. destruct E as [E1 E2]. apply Z.eqb_eq in E2. subst c.
+      destruct ev, e; simpl in E1; try discriminate; reflexivity.
+    - f_equal. apply IH. intros I. apply N. now right.
+  Qed.
+
+  Lemma detach_last b ev cb : ~ In (ev, cb) b -> brk_detach (b ++ [(ev, cb)]) ev cb = b.
+  Proof.
+    induction b as [|[e c] r IH]; simpl; intros N.
+    - rewrite Z.eqb_refl. destruct ev; reflexivity.
+    - destruct (trk_event_eqb ev e && (cb =? c)) eqn:E.
+      + exfalso. apply N. left. apply andb_true_iff in E. destruct E as [E1 E2]. apply Z.eqb_eq in E2. subst c.
+        destruct ev, e; simpl in E1; try discriminate; reflexivity.
+      + f_equal. apply IH. intros I. apply N. now right.
+  Qed.
+
+  (* registered, removed, registered again: the pair is registered (once), behind everything else *)
+  Lemma reattach b ev cb : ~ In (ev, cb) b ->
+    brk_attach (brk_detach (brk_attach b ev cb) ev cb) ev cb = b ++ [(ev, cb)].
+  Proof. intros N. unfold brk_attach. now rewrite detach_last. Qed.
+
   Lemma propagate_quiet b (tr : track) ev : brkc_propagate trk_env_quiet b tr ev = (brk_propagate b tr ev, CbReturn).
   Proof.
     induction b as [|[d c] r IH]; simpl; [reflexivity|]. destruct (trk_event_eqb ev d); [|exact IH]. now rewrite IH.
@@ -218,8 +255,9 @@ Section TrackerCb.
   Definition env_ok (en : env) : Prop := forall l x, In x (e_iter en l) <-> In x l.
 
   (* [done] = the MMSIs whose pop_track was started.  Whatever the subscribers do: only tracks whose age has reached
-     the TTL are removed.  If the cache was a lower bound and no exception escaped: all of them are, and the cache is
-     a lower bound again. *)
+     the TTL are removed, and if the cache was a lower bound it is one afterwards (also when the loop over the expired
+     MMSIs was left by an exception: `self.oldest_timestamp = oldest` is then not reached).  If no exception escaped,
+     all tracks whose age has reached the TTL are removed. *)
   Lemma cleanup_c (en : env) (st : tracker) now : sinv st ->
     exists done o',
       rc_state (trkc_cleanup en st now) =
@@ -231,9 +269,10 @@ Section TrackerCb.
       (t_ttl st = None -> done = []) /\
       (env_ok en -> forall T, t_ttl st = Some T ->
          (forall k tr, In (k, tr) (t_tracks st) -> In k done -> T <= now - tr_lu tr) /\
-         (oinv st -> rc_exn (trkc_cleanup en st now) = None ->
-            (forall k tr, In (k, tr) (t_tracks st) -> T <= now - tr_lu tr -> In k done) /\
-            oinv (rc_state (trkc_cleanup en st now)))).
+         (oinv st ->
+            oinv (rc_state (trkc_cleanup en st now)) /\
+            (rc_exn (trkc_cleanup en st now) = None ->
+             forall k tr, In (k, tr) (t_tracks st) -> T <= now - tr_lu tr -> In k done))).
   Proof.
     intros I. destruct st as [d ttl ord old br]. destruct I as [ND KEY SORT LEN]. simpl in *.
     assert (NOOP : without (inset []) d = d) by (apply without_id; reflexivity).
@@ -244,12 +283,12 @@ Section TrackerCb.
     destruct old as [o|].
     2:{ exists [], None. simpl. rewrite NOOP. split; [reflexivity|]. split; [exact NOCALL|]. split; [reflexivity|].
         split; [intros H; exfalso; apply H; reflexivity|]. split; [discriminate|]. intros _ T' _. split; [intros k tr _ []|].
-        intros OI _. split; [|exact OI]. intros k tr H _. destruct (OI _ _ H) as (o & E & _). discriminate. }
+        intros OI. split; [exact OI|]. intros _ k tr H _. destruct (OI _ _ H) as (o & E & _). discriminate. }
     destruct (Z.ltb_spec (now - T) o) as [Early|Late].
     { exists [], (Some o). simpl. rewrite NOOP. split; [reflexivity|]. split; [exact NOCALL|]. split; [reflexivity|].
       split; [intros H; exfalso; apply H; reflexivity|]. split; [discriminate|]. intros _ T' ET. inversion ET; subst T'.
-      split; [intros k tr _ []|]. intros OI _. split; [|exact OI].
-      intros k tr H St. destruct (OI _ _ H) as (o1 & E & L). inversion E; subst. simpl in *. lia. }
+      split; [intros k tr _ []|]. intros OI. split; [exact OI|].
+      intros _ k tr H St. destruct (OI _ _ H) as (o1 & E & L). inversion E; subst. simpl in *. lia. }
     set (L := if ord then idict_values d else trk_sorted (idict_values d)).
     assert (SS : StronglySorted le_lu L).
     { unfold L. destruct ord; [|apply sorted_ss]. unfold idict_values. apply (proj1 (@ss_map _ _ snd le_lu d)). now apply SORT. }
@@ -258,29 +297,37 @@ Section TrackerCb.
         [apply Permutation_sym|]; apply sorted_perm. }
     destruct (trk_cleanup_scan now T L (Some o) []) as [o' del] eqn:ES.
     destruct (scan_spec _ _ _ _ _ _ _ SS ES) as (D & O).
-    destruct (pop_all_c en (e_iter en del) (with_oldest (mkTracker d (Some T) ord (Some o) br) o') ND KEY)
+    destruct (pop_all_c en (e_iter en del) (mkTracker d (Some T) ord (Some o) br) ND KEY)
       as (done & E & C & INC & FULL & RET & NE).
-    simpl in E, C, INC, FULL, RET, NE. exists done, o'.
+    simpl in E, C, INC, FULL, RET, NE.
     assert (EXACT : forall k tr, In (k, tr) d -> (In k del <-> T <= now - tr_lu tr)).
     { intros k tr H. rewrite D. split.
       - intros [[]|(tr' & I' & K & St)]. apply MEM, in_values in I'. destruct I' as (k' & I').
         pose proof (KEY _ _ I') as K'. assert (k' = k) by congruence. subst k'.
         pose proof (in_get _ _ _ ND I') as G1. pose proof (in_get _ _ _ ND H) as G2. congruence.
       - intros St. right. exists tr. split; [apply MEM, in_values; now exists k|]. split; [now apply KEY | assumption]. }
-    split; [exact E|]. split; [exact C|]. split; [exact RET|]. split; [exact NE|]. split; [discriminate|].
-    intros OK T' ET. inversion ET; subst T'. split.
-    - intros k tr H Hd. apply (EXACT _ _ H). apply OK. now apply INC.
-    - intros OI EX. specialize (FULL EX). split.
-      + intros k tr H St. rewrite FULL. apply OK. now apply (EXACT _ _ H).
-      + rewrite E. intros k tr H. simpl in H. apply in_without in H. destruct H as [H NI]. simpl in NI.
-        apply inset_false in NI. simpl.
-        assert (Fr : now - tr_lu tr < T).
-        { destruct (Z.lt_ge_cases (now - tr_lu tr) T) as [X|X]; [assumption|]. exfalso. apply NI. rewrite FULL.
-          apply OK. now apply (EXACT _ _ H). }
-        assert (InL : In tr L) by (apply MEM, in_values; now exists k).
-        destruct O as [(-> & A)|(lu0 & -> & A)].
-        * specialize (A _ InL). lia.
-        * exists lu0. split; [reflexivity | now apply A].
+    destruct (rc_exn (trkc_pop_all en (mkTracker d (Some T) ord (Some o) br) (e_iter en del))) as [e|] eqn:EX.
+    - (* the loop was left by an exception: oldest_timestamp keeps its value *)
+      exists done, (Some o). split; [exact E|]. split; [exact C|]. split; [exact RET|]. split; [rewrite EX; exact NE|].
+      split; [discriminate|]. intros OK T' ET. inversion ET; subst T'. split.
+      + intros k tr H Hd. apply (EXACT _ _ H). apply OK. now apply INC.
+      + intros OI. split; [|rewrite EX; discriminate]. rewrite E. intros k tr H. simpl in H. apply in_without in H.
+        apply (OI k tr). tauto.
+    - exists done, o'. simpl. split; [now rewrite E|]. split; [exact C|]. split; [reflexivity|].
+      split; [intros X; now contradiction X|]. split; [discriminate|].
+      intros OK T' ET. inversion ET; subst T'. specialize (FULL eq_refl). split.
+      + intros k tr H Hd. apply (EXACT _ _ H). apply OK. now apply INC.
+      + intros OI. split.
+        * rewrite E. intros k tr H. simpl in H. apply in_without in H. destruct H as [H NI]. simpl in NI.
+          apply inset_false in NI. simpl.
+          assert (Fr : now - tr_lu tr < T).
+          { destruct (Z.lt_ge_cases (now - tr_lu tr) T) as [X|X]; [assumption|]. exfalso. apply NI. rewrite FULL.
+            apply OK. now apply (EXACT _ _ H). }
+          assert (InL : In tr L) by (apply MEM, in_values; now exists k).
+          destruct O as [(-> & A)|(lu0 & -> & A)].
+          -- specialize (A _ InL). lia.
+          -- exists lu0. split; [reflexivity | now apply A].
+        * intros _ k tr H St. rewrite FULL. apply OK. now apply (EXACT _ _ H).
   Qed.
 
   Lemma cleanup_c_sinv (en : env) (st : tracker) now : sinv st -> sinv (rc_state (trkc_cleanup en st now)).
@@ -366,18 +413,27 @@ Section TrackerCb.
     now apply sinv_same.
   Qed.
 
+  Lemma with_tracks_set_oldest (st : tracker) d ts :
+    with_tracks (trk_set_oldest_timestamp st ts) d = trk_set_oldest_timestamp (with_tracks st d) ts.
+  Proof. unfold trk_set_oldest_timestamp. simpl. destruct (t_oldest st); reflexivity. Qed.
+
+  (* the state in which insert_track / update_track leave the tracker when a subscriber raises: a NEW track is already
+     covered by the cache (`__set_oldest_timestamp` runs before insert_track), an updated one still is *)
+  Definition raised_insert (st : tracker) (m : Z) (new : track) : tracker :=
+    if idict_mem (t_tracks st) m then inserted st m new else after_insert st m new.
+
   Lemma insert_or_update_c (en : env) (st : tracker) m new : NoDup (keys (t_tracks st)) ->
     (older_than_track st m (tr_lu new) /\
      trkc_insert_or_update en st m new = mkCResult st [] [] None (Some (Py ValueError))) \/
     (~ older_than_track st m (tr_lu new) /\
      trkc_insert_or_update en st m new =
        mkCResult (match snd (brkc_propagate en (t_broker st) (upd_result st m new) (upd_event st m)) with
-                  | CbReturn => after_insert st m new | CbRaise _ => inserted st m new end)
+                  | CbReturn => after_insert st m new | CbRaise _ => raised_insert st m new end)
                  [(upd_event st m, upd_result st m new)]
                  (fst (brkc_propagate en (t_broker st) (upd_result st m new) (upd_event st m))) None
                  (outcome_exn (snd (brkc_propagate en (t_broker st) (upd_result st m new) (upd_event st m))))).
   Proof.
-    intros ND. unfold trkc_insert_or_update, after_insert, inserted, upd_event, upd_result, older_than_track, idict_mem.
+    intros ND. unfold trkc_insert_or_update, raised_insert, after_insert, inserted, upd_event, upd_result, older_than_track, idict_mem.
     destruct (idict_get (t_tracks st) m) as [old|] eqn:G.
     - unfold trkc_update_track_m. rewrite G. destruct (Z.ltb_spec (tr_lu new) (tr_lu old)).
       + left. split; [exists old; auto | reflexivity].
@@ -386,10 +442,23 @@ Section TrackerCb.
         rewrite set_absent by (rewrite get_without, Z.eqb_refl; reflexivity). simpl.
         destruct (brkc_propagate en (t_broker st) (trk_update_track old new) UPDATED) as [ds [|e]]; reflexivity.
     - right. split; [intros (o & E & _); discriminate|]. unfold trkc_insert_track.
-      rewrite set_absent by assumption. rewrite without_id.
+      rewrite set_oldest_tracks. rewrite set_absent by assumption. rewrite without_id.
       2:{ intros k Ik. destruct (Z.eqb_spec m k); [subst; apply get_none_iff in G; tauto | reflexivity]. }
-      simpl. destruct (brkc_propagate en (t_broker st) new CREATED) as [ds [|e]]; reflexivity.
+      simpl. rewrite (proj2 (proj2 (proj2 (set_oldest_same st (tr_lu new))))).
+      destruct (brkc_propagate en (t_broker st) new CREATED) as [ds [|e]]; simpl.
+      + now rewrite set_oldest_absorb.
+      + now rewrite with_tracks_set_oldest.
   Qed.
+
+  Lemma raised_insert_tracks (st : tracker) m new :
+    t_tracks (raised_insert st m new) = without (Z.eqb m) (t_tracks st) ++ [(m, upd_result st m new)].
+  Proof.
+    unfold raised_insert. destruct (idict_mem (t_tracks st) m); [reflexivity|].
+    now destruct (after_insert_cfg st m new) as (_ & _ & _ & E).
+  Qed.
+
+  Lemma sinv_raised_insert (st : tracker) m new : sinv (inserted st m new) -> sinv (raised_insert st m new).
+  Proof. intros I. unfold raised_insert. destruct (idict_mem (t_tracks st) m); [assumption | now apply sinv_after_insert]. Qed.
 
   Lemma update_c (en : env) (st : tracker) now (msg : trk_msg V) ts : sinv st ->
     let new := trk_msg_to_track nattrs msg ts now in
@@ -399,7 +468,7 @@ Section TrackerCb.
      trkc_update nattrs en st now msg ts =
        match snd (brkc_propagate en (t_broker st) (upd_result st m new) (upd_event st m)) with
        | CbRaise e =>
-         mkCResult (inserted st m new) [(upd_event st m, upd_result st m new)]
+         mkCResult (raised_insert st m new) [(upd_event st m, upd_result st m new)]
                    (fst (brkc_propagate en (t_broker st) (upd_result st m new) (upd_event st m))) None (Some e)
        | CbReturn =>
          mkCResult (rc_state (trkc_cleanup en (after_insert st m new) now))
@@ -423,90 +492,111 @@ Section TrackerCb.
   Proof. intros E. unfold trkc_cleanup. now rewrite E. Qed.
 
   (* ---------------------------------------------------------------- one step *)
-  Theorem step_sinv (en : env) (st : tracker) op : sinv st -> sinv (rc_state (trkc_step nattrs en st op)).
+  Theorem step_sinv (en : env) (st : tracker) op : sinv st -> op_ok nattrs st op ->
+    sinv (rc_state (trkc_step nattrs en st op)).
   Proof.
-    intros I. destruct op as [now msg ts|now|m|ev cb|ev cb]; simpl.
+    intros I OKop. destruct op as [now msg ts|now|m|ev cb|ev cb|now msg ts|newttl|]; simpl.
     - destruct (update_c en st now msg ts I) as [[_ E]|(_ & I2 & E)]; rewrite E; [exact I|].
-      destruct (snd (brkc_propagate en (t_broker st) _ _)); simpl; [|exact I2].
+      destruct (snd (brkc_propagate en (t_broker st) _ _)); simpl; [|now apply sinv_raised_insert].
       apply cleanup_c_sinv. now apply sinv_after_insert.
     - now apply cleanup_c_sinv.
     - pose proof (pop_track_c en st m (s_nodup _ I)) as P. destruct (idict_get (t_tracks st) m); simpl in P; rewrite P; simpl;
         [now apply sinv_without | assumption].
     - now apply (sinv_same st).
     - now apply (sinv_same st).
+    - destruct (msg_to_track_facts nattrs msg ts now) as (Fm & _ & Fl).
+      assert (I2 : sinv (inserted st (m_mmsi msg) (trk_msg_to_track nattrs msg ts now))) by now apply sinv_inserted.
+      destruct (insert_or_update_c en st (m_mmsi msg) (trk_msg_to_track nattrs msg ts now) (s_nodup _ I)) as [[_ E]|[_ E]];
+        rewrite E; simpl; [exact I|].
+      destruct (snd (brkc_propagate en (t_broker st) _ _)); [now apply sinv_after_insert | now apply sinv_raised_insert].
+    - now apply (sinv_same st).
+    - destruct I as [A B C D]. constructor; simpl; auto. discriminate.
   Qed.
-
-  (* update() / cleanup() was not left by the exception of a subscriber: it returned, or it raised before the first
-     propagate call (a rejected update).  pop_track / register_callback / remove_callback: no condition. *)
-  Definition step_ok (op : trk_op V) (res : result) : Prop :=
-    match op with
-    | OpUpdate _ _ _ | OpCleanup _ => rc_exn res = None \/ rc_calls res = []
-    | _ => True
-    end.
 
   Lemma cleanup_c_oinv (en : env) (st : tracker) now : sinv st -> oinv st -> env_ok en ->
-    rc_exn (trkc_cleanup en st now) = None \/ rc_calls (trkc_cleanup en st now) = [] ->
     oinv (rc_state (trkc_cleanup en st now)).
   Proof.
-    intros I O OK H. destruct (t_ttl st) as [T|] eqn:ET.
+    intros I O OK. destruct (t_ttl st) as [T|] eqn:ET.
     2:{ rewrite cleanup_c_nottl by assumption. exact O. }
-    destruct (cleanup_c en st now I) as (done & o' & _ & _ & _ & NE & _ & X).
-    destruct (X OK T ET) as (_ & Y). apply Y; [assumption|].
-    destruct (rc_exn (trkc_cleanup en st now)) as [e|] eqn:EX; [|reflexivity]. exfalso.
-    destruct H as [H|H]; [discriminate|]. apply NE; [discriminate | assumption].
+    destruct (cleanup_c en st now I) as (done & o' & _ & _ & _ & _ & _ & X).
+    destruct (X OK T ET) as (_ & Y). now apply Y.
   Qed.
 
-  Theorem step_inv (en : env) (st : tracker) op : inv nattrs st -> env_ok en ->
-    step_ok op (trkc_step nattrs en st op) -> inv nattrs (rc_state (trkc_step nattrs en st op)).
+  (* a subscriber of CREATED / UPDATED raised: the cache still bounds the table *)
+  Lemma oinv_raised_insert (st : tracker) m new : inv nattrs st -> tr_mmsi new = m -> length (tr_attrs new) = nattrs ->
+    ~ upd_rejected st m (tr_lu new) -> oinv (raised_insert st m new).
   Proof.
-    intros I0 OK SO. pose proof (proj1 (inv_split st) I0) as [I O]. apply inv_split. split; [now apply step_sinv|].
-    destruct op as [now msg ts|now|m|ev cb|ev cb]; simpl in *.
+    intros I0 Hm Hl NR. unfold raised_insert. destruct (idict_mem (t_tracks st) m) eqn:M.
+    - pose proof (proj1 (inv_split st) I0) as [I O]. destruct (upd_result_facts_s st m new I Hm Hl) as (_ & Rlu & _).
+      unfold idict_mem in M. destruct (idict_get (t_tracks st) m) as [old|] eqn:G; [|discriminate].
+      intros k tr H. unfold inserted in H. simpl in H. apply in_app_or in H. destruct H as [H|[H|[]]].
+      + apply in_without in H. apply (O k tr). tauto.
+      + inversion H; subst k tr. simpl. destruct (O _ _ (get_some_in _ _ _ G)) as (o & Eo & Lo). exists o. split; [assumption|].
+        rewrite Rlu. destruct (Z.lt_ge_cases (tr_lu new) (tr_lu old)) as [X|X]; [|lia].
+        exfalso. apply NR. left. exists old. auto.
+    - assert (IA : inv nattrs (after_insert st m new)) by (apply inv_after_insert; auto; intros X; apply NR; now right).
+      apply inv_split in IA. tauto.
+  Qed.
+
+  (* the full invariant -- structure AND cache -- survives every operation, whatever the subscribers do *)
+  Theorem step_inv (en : env) (st : tracker) op : inv nattrs st -> env_ok en -> op_ok nattrs st op ->
+    inv nattrs (rc_state (trkc_step nattrs en st op)).
+  Proof.
+    intros I0 OK OKop. pose proof (proj1 (inv_split st) I0) as [I O]. apply inv_split. split; [now apply step_sinv|].
+    destruct op as [now msg ts|now|m|ev cb|ev cb|now msg ts|newttl|]; simpl in *.
     - destruct (update_c en st now msg ts I) as [[_ E]|(NR & I2 & E)]; rewrite E in *; [exact O|].
       destruct (msg_to_track_facts nattrs msg ts now) as (Fm & _ & Fl).
       destruct (snd (brkc_propagate en (t_broker st) _ _)); simpl in *.
       + assert (IA : inv nattrs (after_insert st (m_mmsi msg) (trk_msg_to_track nattrs msg ts now))).
         { apply inv_after_insert; auto. intros X. apply NR. now right. }
-        apply inv_split in IA. destruct IA as [IA OA]. apply cleanup_c_oinv; auto.
-        destruct SO as [SO|SO]; [now left | discriminate].
-      + destruct SO as [SO|SO]; discriminate.
+        apply inv_split in IA. destruct IA as [IA OA]. now apply cleanup_c_oinv.
+      + now apply oinv_raised_insert.
     - now apply cleanup_c_oinv.
     - pose proof (pop_track_c en st m (s_nodup _ I)) as P. destruct (idict_get (t_tracks st) m); simpl in P; rewrite P; simpl;
         [now apply oinv_without | assumption].
     - exact O.
     - exact O.
+    - destruct (msg_to_track_facts nattrs msg ts now) as (Fm & _ & Fl).
+      destruct (insert_or_update_c en st (m_mmsi msg) (trk_msg_to_track nattrs msg ts now) (s_nodup _ I)) as [[_ E]|[NR E]];
+        rewrite E; simpl; [exact O|].
+      destruct (snd (brkc_propagate en (t_broker st) _ _)).
+      + assert (IA : inv nattrs (after_insert st (m_mmsi msg) (trk_msg_to_track nattrs msg ts now))) by now apply inv_after_insert.
+        apply inv_split in IA. tauto.
+      + apply oinv_raised_insert; auto. intros [X|X]; tauto.
+    - exact O.
+    - exact O.
   Qed.
 
-  (* every state, whatever the subscribers did *)
+  (* every state: after any history, whatever the subscribers did (returned, raised, left operations half way) *)
   Inductive reachable_any : tracker -> Prop :=
   | reach_any_init ttl ordered : reachable_any (trk_init ttl ordered)
-  | reach_any_step en st op : reachable_any st -> reachable_any (rc_state (trkc_step nattrs en st op)).
+  | reach_any_step en st op : reachable_any st -> env_ok en -> op_ok nattrs st op ->
+                              reachable_any (rc_state (trkc_step nattrs en st op)).
 
-  (* the states reached as long as no exception of a subscriber has left update() or cleanup() *)
-  Inductive reachable_c : tracker -> Prop :=
-  | reach_c_init ttl ordered : reachable_c (trk_init ttl ordered)
-  | reach_c_step en st op : reachable_c st -> env_ok en -> step_ok op (trkc_step nattrs en st op) ->
-                            reachable_c (rc_state (trkc_step nattrs en st op)).
-
-  Lemma reachable_any_sinv st : reachable_any st -> sinv st.
-  Proof. induction 1; [apply sinv_init | now apply step_sinv]. Qed.
-
-  Lemma reachable_c_inv st : reachable_c st -> inv nattrs st.
+  Lemma reachable_any_inv st : reachable_any st -> inv nattrs st.
   Proof. induction 1; [apply inv_init | now apply step_inv]. Qed.
 
-  Lemma reachable_c_any st : reachable_c st -> reachable_any st.
-  Proof. induction 1; [constructor | now constructor]. Qed.
+  Lemma reachable_any_sinv st : reachable_any st -> sinv st.
+  Proof. intros R. apply reachable_any_inv in R. apply inv_split in R. tauto. Qed.
 
+  (* only the two configuration operations change the configuration *)
   Lemma step_cfg_c (en : env) (st : tracker) op : sinv st ->
-    t_ordered (rc_state (trkc_step nattrs en st op)) = t_ordered st /\
-    t_ttl (rc_state (trkc_step nattrs en st op)) = t_ttl st.
+    t_ordered (rc_state (trkc_step nattrs en st op)) = sp_mode (t_ordered st) (abs_op op) /\
+    t_ttl (rc_state (trkc_step nattrs en st op)) = sp_ttl_after (t_ttl st) (abs_op op).
   Proof.
-    intros I. destruct op as [now msg ts|now|m1|ev cb|ev cb]; simpl; auto.
+    intros I. destruct op as [now msg ts|now|m1|ev cb|ev cb|now msg ts|newttl|]; simpl; auto.
     - destruct (update_c en st now msg ts I) as [[_ E]|(_ & I2 & E)]; rewrite E; simpl; [auto|].
       destruct (after_insert_cfg st (m_mmsi msg) (trk_msg_to_track nattrs msg ts now)) as (A & B & _).
-      destruct (snd (brkc_propagate en (t_broker st) _ _)); simpl; [|auto].
+      destruct (snd (brkc_propagate en (t_broker st) _ _)); simpl.
+      2:{ unfold raised_insert. destruct (idict_mem (t_tracks st) (m_mmsi msg)); [simpl; auto | rewrite A, B; auto]. }
       destruct (cleanup_c_cfg en _ now (sinv_after_insert _ _ _ I2)) as (X & Y & _). rewrite X, Y. auto.
     - destruct (cleanup_c_cfg en st now I) as (X & Y & _). auto.
     - pose proof (pop_track_c en st m1 (s_nodup _ I)) as P. destruct (idict_get (t_tracks st) m1); simpl in P; rewrite P; simpl; auto.
+    - destruct (insert_or_update_c en st (m_mmsi msg) (trk_msg_to_track nattrs msg ts now) (s_nodup _ I)) as [[_ E]|[_ E]];
+        rewrite E; simpl; [auto|].
+      destruct (after_insert_cfg st (m_mmsi msg) (trk_msg_to_track nattrs msg ts now)) as (A & B & _).
+      destruct (snd (brkc_propagate en (t_broker st) _ _)); [rewrite A, B; auto|].
+      unfold raised_insert. destruct (idict_mem (t_tracks st) (m_mmsi msg)); [simpl; auto | rewrite A, B; auto].
   Qed.
 
   (* ================================================================================= 4. C13 *)
@@ -527,22 +617,22 @@ Section TrackerCb.
   Proof.
     intros I0 OK ET EX. apply inv_split in I0. destruct I0 as [I O].
     destruct (cleanup_c en st now I) as (done & o' & E & _ & _ & _ & _ & X).
-    destruct (X OK T ET) as (_ & Y). destruct (Y O EX) as (Z & _). rewrite E. rewrite Forall_forall.
+    destruct (X OK T ET) as (_ & Y). destruct (Y O) as (_ & Z). specialize (Z EX). rewrite E. rewrite Forall_forall.
     intros tr H. unfold trk_tracks in H. simpl in H. apply in_values in H. destruct H as (k & H).
     apply in_without in H. destruct H as [H N]. simpl in N. apply inset_false in N.
     destruct (Z.lt_ge_cases (now - tr_lu tr) T) as [L|G]; [assumption|]. exfalso. apply N. now apply (Z _ _ H).
   Qed.
 
-  (* C13, TTL configured: an update()/cleanup() that RETURNS, in a state reached without a subscriber's exception
-     having left update()/cleanup(), whatever the subscribers do during it (KeyError of a DELETED subscriber is
+  (* C13, TTL configured: an update()/cleanup() that RETURNS, from EVERY state (also one left behind by an operation
+     that a subscriber's exception ended), whatever the subscribers do during it (KeyError of a DELETED subscriber is
      swallowed by pop_track; anything that escapes makes the operation raise and is excluded by rc_exn = None) *)
-  Theorem expiry_exact_c (en : env) (st : tracker) op now T : reachable_c st -> env_ok en -> t_ttl st = Some T ->
+  Theorem expiry_exact_c (en : env) (st : tracker) op now T : reachable_any st -> env_ok en -> t_ttl st = Some T ->
     (op = OpCleanup now \/ exists msg ts, op = OpUpdate now msg ts) ->
     rc_exn (trkc_step nattrs en st op) = None ->
     sp_ttl_ok T now (map (@tr_lu V) (trk_tracks (rc_state (trkc_step nattrs en st op))))
               (deleted_lus (rc_calls (trkc_step nattrs en st op))).
   Proof.
-    intros R OK ET Hop. apply reachable_c_inv in R. pose proof (proj1 (inv_split st) R) as [I O].
+    intros R OK ET Hop. apply reachable_any_inv in R. pose proof (proj1 (inv_split st) R) as [I O].
     unfold sp_ttl_ok. rewrite Forall_map. destruct Hop as [->|(msg & ts & ->)]; simpl.
     - intros EX. split; [now apply cleanup_remaining_fresh|].
       apply deleted_lus_all. now apply cleanup_removed_expired.
@@ -558,14 +648,16 @@ Section TrackerCb.
       apply cleanup_removed_expired; auto. apply inv_split in IA. tauto.
   Qed.
 
-  (* ... and in EVERY state, whether the operation returns or is left by an exception: what expiry removed had
-     reached the TTL (the second half of C13), and the structural invariants hold in the state left behind *)
+  (* ... and whether the operation returns or is left by an exception: what expiry removed had reached the TTL (the
+     second half of C13), and the invariants -- the cache included -- hold in the state left behind *)
   Theorem expiry_never_removes_fresh (en : env) (st : tracker) op now T : reachable_any st -> env_ok en ->
     t_ttl st = Some T -> (op = OpCleanup now \/ exists msg ts, op = OpUpdate now msg ts) ->
     Forall (fun lu => T <= now - lu) (deleted_lus (rc_calls (trkc_step nattrs en st op))) /\
-    sinv (rc_state (trkc_step nattrs en st op)).
+    inv nattrs (rc_state (trkc_step nattrs en st op)).
   Proof.
-    intros R OK ET Hop. apply reachable_any_sinv in R. split; [|now apply step_sinv].
+    intros R OK ET Hop. split.
+    2:{ apply step_inv; [now apply reachable_any_inv | assumption|]. destruct Hop as [->|(msg & ts & ->)]; exact Logic.I. }
+    apply reachable_any_sinv in R.
     destruct Hop as [->|(msg & ts & ->)]; simpl.
     - apply deleted_lus_all. now apply cleanup_removed_expired.
     - destruct (update_c en st now msg ts R) as [[_ E]|(NR & I2 & E)]; rewrite E; simpl; [constructor|].
@@ -584,7 +676,7 @@ Section TrackerCb.
     incl (keys (t_tracks st)) (keys (t_tracks (rc_state (trkc_step nattrs en st op)))).
   Proof.
     intros R ET NP. apply reachable_any_sinv in R.
-    destruct op as [now msg ts|now|m|ev cb|ev cb]; simpl.
+    destruct op as [now msg ts|now|m|ev cb|ev cb|now msg ts|newttl|]; simpl.
     - destruct (update_c en st now msg ts R) as [[_ E]|(_ & I2 & E)]; rewrite E; simpl.
       + split; [reflexivity | apply incl_refl].
       + destruct (after_insert_cfg st (m_mmsi msg) (trk_msg_to_track nattrs msg ts now)) as (Ettl & _ & _ & Etr).
@@ -598,9 +690,23 @@ Section TrackerCb.
         destruct (snd (brkc_propagate en (t_broker st) _ _)); simpl.
         * rewrite (cleanup_c_nottl en _ now Ettl). simpl. unfold deleted_mmsis. simpl.
           rewrite upd_event_not_deleted. split; [reflexivity|]. now rewrite Etr.
-        * unfold deleted_mmsis. simpl. rewrite upd_event_not_deleted. split; [reflexivity | exact KS].
+        * unfold deleted_mmsis. simpl. rewrite upd_event_not_deleted. split; [reflexivity|]. now rewrite raised_insert_tracks.
     - rewrite (cleanup_c_nottl en st now ET). simpl. split; [reflexivity | apply incl_refl].
     - exfalso. now apply (NP m).
+    - split; [reflexivity | apply incl_refl].
+    - split; [reflexivity | apply incl_refl].
+    - destruct (insert_or_update_c en st (m_mmsi msg) (trk_msg_to_track nattrs msg ts now) (s_nodup _ R)) as [[_ E]|[_ E]];
+        rewrite E; simpl; [split; [reflexivity | apply incl_refl]|].
+      unfold deleted_mmsis. simpl. rewrite upd_event_not_deleted. split; [reflexivity|].
+      assert (KS : incl (keys (t_tracks st))
+                     (keys (without (Z.eqb (m_mmsi msg)) (t_tracks st) ++
+                            [(m_mmsi msg, upd_result st (m_mmsi msg) (trk_msg_to_track nattrs msg ts now))]))).
+      { rewrite keys_app, keys_without. simpl. intros k Ik. apply in_or_app.
+        destruct (Z.eqb_spec (m_mmsi msg) k) as [->|N]; [right; now left | left].
+        apply filter_In. split; [assumption|]. apply negb_true_iff. now apply Z.eqb_neq. }
+      destruct (snd (brkc_propagate en (t_broker st) _ _)).
+      + now destruct (after_insert_cfg st (m_mmsi msg) (trk_msg_to_track nattrs msg ts now)) as (_ & _ & _ & ->).
+      + now rewrite raised_insert_tracks.
     - split; [reflexivity | apply incl_refl].
     - split; [reflexivity | apply incl_refl].
   Qed.
@@ -661,7 +767,7 @@ Section TrackerCb.
      afterwards, if a subscriber does) *)
   Definition step_target_c (op : trk_op V) (res : result) : option Z :=
     match op with
-    | OpUpdate _ msg _ => match rc_calls res with [] => None | _ => Some (m_mmsi msg) end
+    | OpUpdate _ msg _ | OpInsertOrUpdate _ msg _ => match rc_calls res with [] => None | _ => Some (m_mmsi msg) end
     | _ => None
     end.
 
@@ -674,7 +780,7 @@ Section TrackerCb.
   Proof.
     intros I. rewrite events_of_calls.
     assert (SAME : forall b, [] = sp_expected_events None m b b) by (intros []; reflexivity).
-    destruct op as [now msg ts|now|m1|ev cb|ev cb]; simpl.
+    destruct op as [now msg ts|now|m1|ev cb|ev cb|now msg ts|newttl|]; simpl.
     - destruct (update_c en st now msg ts I) as [[_ E]|(_ & I2 & E)]; rewrite E; simpl; [split; [apply SAME | auto]|].
       set (m0 := m_mmsi msg) in *. set (new := trk_msg_to_track nattrs msg ts now) in *.
       destruct (upd_result_facts_s st m0 new I) as (Rm & _);
@@ -692,7 +798,7 @@ Section TrackerCb.
           destruct (idict_mem (t_tracks st) m0); reflexivity.
         * rewrite CE. split; [reflexivity|]. intros B _. rewrite mem_without, M2.
           rewrite B. apply andb_false_r.
-      + rewrite Rm. unfold inserted. simpl. rewrite M2. destruct (Z.eqb_spec m m0) as [->|N]; simpl.
+      + rewrite Rm. rewrite raised_insert_tracks. rewrite M2. destruct (Z.eqb_spec m m0) as [->|N]; simpl.
         * split; [|congruence]. unfold upd_event. destruct (idict_mem (t_tracks st) m0); reflexivity.
         * split; [|auto]. destruct (idict_mem (t_tracks st) m); reflexivity.
     - destruct (cleanup_c en st now I) as (done & o' & Ec & C & _). rewrite Ec. simpl.
@@ -705,39 +811,76 @@ Section TrackerCb.
       + split; [apply SAME | auto].
     - split; [apply SAME | auto].
     - split; [apply SAME | auto].
+    - set (m0 := m_mmsi msg). set (new := trk_msg_to_track nattrs msg ts now).
+      destruct (insert_or_update_c en st m0 new (s_nodup _ I)) as [[_ E]|[_ E]]; rewrite E; simpl; [split; [apply SAME | auto]|].
+      destruct (upd_result_facts_s st m0 new I) as (Rm & _);
+        [apply (msg_to_track_facts nattrs msg ts now) | apply (msg_to_track_facts nattrs msg ts now)|].
+      assert (M2 : idict_mem (without (Z.eqb m0) (t_tracks st) ++ [(m0, upd_result st m0 new)]) m
+                   = (m =? m0) || idict_mem (t_tracks st) m).
+      { unfold idict_mem. rewrite get_app_single, get_without, (Z.eqb_sym m0 m).
+        destruct (m =? m0); simpl; [reflexivity|]. destruct (idict_get (t_tracks st) m); reflexivity. }
+      assert (TR : t_tracks (match snd (brkc_propagate en (t_broker st) (upd_result st m0 new) (upd_event st m0)) with
+                             | CbReturn => after_insert st m0 new | CbRaise _ => raised_insert st m0 new end)
+                   = without (Z.eqb m0) (t_tracks st) ++ [(m0, upd_result st m0 new)]).
+      { destruct (snd (brkc_propagate en (t_broker st) _ _)); [|apply raised_insert_tracks].
+        now destruct (after_insert_cfg st m0 new) as (_ & _ & _ & ->). }
+      rewrite TR, Rm, M2. destruct (Z.eqb_spec m m0) as [->|N]; simpl.
+      + split; [|congruence]. unfold upd_event. destruct (idict_mem (t_tracks st) m0); reflexivity.
+      + split; [|auto]. destruct (idict_mem (t_tracks st) m); reflexivity.
+    - split; [apply SAME | auto].
+    - split; [apply SAME | auto].
   Qed.
 
   (* all propagate calls of a run, as (event, mmsi), in order *)
   Definition run_events_c (results : list result) : list (sp_event * Z) :=
     flat_map (fun r => abs_calls (rc_calls r)) results.
 
-  Lemma run_alive_c m : forall (h : list (env * trk_op V)) (st : tracker) trace0, sinv st ->
+  (* a history that respects the ordered-mode caveat of insert_or_update() at every step, and whose environments
+     enumerate the set of expired MMSIs (`run_ok` is True for histories without insert_or_update() whose environments are
+     built by `trk_env_of` / `trk_env_quiet`) *)
+  Fixpoint trkc_run_ok (st : tracker) (h : list (env * trk_op V)) : Prop :=
+    match h with
+    | [] => True
+    | (en, op) :: r => env_ok en /\ op_ok nattrs st op /\ trkc_run_ok (rc_state (trkc_step nattrs en st op)) r
+    end.
+
+  Lemma runc_ok_without_insert : forall (h : list (env * trk_op V)) (st : tracker),
+    (forall x, In x h -> env_ok (fst x)) -> (forall en now msg ts, ~ In (en, OpInsertOrUpdate now msg ts) h) -> trkc_run_ok st h.
+  Proof.
+    induction h as [|[en op] r IH]; intros st E N; simpl; [exact Logic.I|]. split; [apply (E (en, op)); now left|]. split.
+    - destruct op; try exact Logic.I. exfalso. apply (N en now decoded ts_epoch_ms). now left.
+    - apply IH; [intros x I; apply E; now right | intros en' now msg ts I; apply (N en' now msg ts); now right].
+  Qed.
+
+  Lemma run_alive_c m : forall (h : list (env * trk_op V)) (st : tracker) trace0, sinv st -> trkc_run_ok st h ->
     sp_alive m trace0 = Some (idict_mem (t_tracks st) m) ->
     sp_alive m (trace0 ++ run_events_c (snd (trkc_run nattrs st h))) =
       Some (idict_mem (t_tracks (fst (trkc_run nattrs st h))) m).
   Proof.
-    induction h as [|[en op] r IH]; intros st trace0 I A; simpl.
+    induction h as [|[en op] r IH]; intros st trace0 I OK A; simpl.
     - now rewrite app_nil_r.
-    - destruct (trkc_run nattrs (rc_state (trkc_step nattrs en st op)) r) as [st' rs] eqn:ER. simpl.
+    - destruct OK as (_ & OK1 & OK2).
+      destruct (trkc_run nattrs (rc_state (trkc_step nattrs en st op)) r) as [st' rs] eqn:ER. simpl.
       rewrite app_assoc.
       specialize (IH (rc_state (trkc_step nattrs en st op)) (trace0 ++ abs_calls (rc_calls (trkc_step nattrs en st op)))).
-      rewrite ER in IH. simpl in IH. apply IH; [now apply step_sinv|].
+      rewrite ER in IH. simpl in IH. apply IH; [now apply step_sinv | assumption|].
       unfold sp_alive in *. rewrite events_of_app, auto_run_app, A.
       destruct (step_events_c en st op m I) as (E & K). rewrite E. now apply expected_run.
   Qed.
 
   (* C15: whatever the subscribers do, the propagate calls of every MMSI stay in (CREATED UPDATED* DELETED)* and
      "alive" = "has a track" *)
-  Theorem events_lifecycle_c ttl ordered (h : list (env * trk_op V)) m :
+  Theorem events_lifecycle_c ttl ordered (h : list (env * trk_op V)) m : trkc_run_ok (trk_init ttl ordered) h ->
     sp_alive m (run_events_c (snd (trkc_run nattrs (trk_init ttl ordered) h))) =
       Some (idict_mem (t_tracks (fst (trkc_run nattrs (trk_init ttl ordered) h))) m).
-  Proof. apply (run_alive_c m h (trk_init ttl ordered) []); [apply sinv_init | reflexivity]. Qed.
+  Proof. intros OK. apply (run_alive_c m h (trk_init ttl ordered) []); [apply sinv_init | assumption | reflexivity]. Qed.
 
   Lemma run_reachable_any : forall (h : list (env * trk_op V)) (st : tracker),
-    reachable_any st -> reachable_any (fst (trkc_run nattrs st h)).
+    trkc_run_ok st h -> reachable_any st -> reachable_any (fst (trkc_run nattrs st h)).
   Proof.
-    induction h as [|[en op] r IH]; intros st R; simpl; [assumption|].
-    specialize (IH _ (reach_any_step en st op R)). destruct (trkc_run nattrs (rc_state (trkc_step nattrs en st op)) r). exact IH.
+    induction h as [|[en op] r IH]; intros st F R; simpl; [assumption|]. destruct F as (F1 & F2 & F3).
+    specialize (IH _ F3 (reach_any_step en st op R F1 F2)).
+    destruct (trkc_run nattrs (rc_state (trkc_step nattrs en st op)) r). exact IH.
   Qed.
 
   (* a rejected update: exactly the updates that are older than their own track or (ordered) than some track; it
@@ -780,7 +923,8 @@ Section TrackerCb.
   Proof.
     intros ND. unfold trkc_cleanup. destruct (t_ttl st); [|reflexivity]. destruct (t_oldest st); [|reflexivity].
     destruct (_ <? _); [reflexivity|]. destruct (trk_cleanup_scan _ _ _ _ _) as [o' del].
-    now rewrite pop_all_deliv.
+    pose proof (pop_all_deliv en (e_iter en del) st ND) as P.
+    destruct (rc_exn (trkc_pop_all en st (e_iter en del))); simpl; exact P.
   Qed.
 
   (* C15, "to whom": the callback invocations of an operation are those of its propagate calls, in order; each call
@@ -793,14 +937,16 @@ Section TrackerCb.
   Proof.
     intros R. apply reachable_any_sinv in R.
     assert (G : rc_deliv (trkc_step nattrs en st op) = trkc_deliver en (t_broker st) (rc_calls (trkc_step nattrs en st op))).
-    { destruct op as [now msg ts|now|m1|ev cb|ev cb]; simpl; try reflexivity.
+    { destruct op as [now msg ts|now|m1|ev cb|ev cb|now msg ts|newttl|]; simpl; try reflexivity.
       - destruct (update_c en st now msg ts R) as [[_ E]|(_ & I2 & E)]; rewrite E; simpl; [reflexivity|].
         destruct (after_insert_cfg st (m_mmsi msg) (trk_msg_to_track nattrs msg ts now)) as (_ & _ & Eb & _).
         destruct (snd (brkc_propagate en (t_broker st) _ _)) eqn:EP; simpl; [|now rewrite app_nil_r].
         rewrite cleanup_deliv by (apply (s_nodup _ (sinv_after_insert _ _ _ I2))). now rewrite Eb.
       - apply cleanup_deliv. apply (s_nodup _ R).
       - pose proof (pop_track_c en st m1 (s_nodup _ R)) as P.
-        destruct (idict_get (t_tracks st) m1); simpl in P; rewrite P; simpl; [now rewrite app_nil_r | reflexivity]. }
+        destruct (idict_get (t_tracks st) m1); simpl in P; rewrite P; simpl; [now rewrite app_nil_r | reflexivity].
+      - destruct (insert_or_update_c en st (m_mmsi msg) (trk_msg_to_track nattrs msg ts now) (s_nodup _ R)) as [[_ E]|[_ E]];
+          rewrite E; simpl; [reflexivity | now rewrite app_nil_r]. }
     rewrite G. unfold trkc_deliver. apply flat_map_ext. intros [ev tr]. simpl. apply propagate_cut.
   Qed.
   (* ---------------------------------------------------------------- where an exception comes from *)
@@ -847,7 +993,9 @@ Section TrackerCb.
     rc_exn (trkc_cleanup en st now) = Some e -> raised_last en (rc_deliv (trkc_cleanup en st now)) e.
   Proof.
     intros ND. unfold trkc_cleanup. destruct (t_ttl st); [|discriminate]. destruct (t_oldest st); [|discriminate].
-    destruct (_ <? _); [discriminate|]. destruct (trk_cleanup_scan _ _ _ _ _) as [o' del]. now apply pop_all_exn.
+    destruct (_ <? _); [discriminate|]. destruct (trk_cleanup_scan _ _ _ _ _) as [o' del].
+    pose proof (pop_all_exn en (e_iter en del) e st ND) as P.
+    destruct (rc_exn (trkc_pop_all en st (e_iter en del))) eqn:EX; simpl; [rewrite EX; exact P | discriminate].
   Qed.
 
   (* An operation raises either because an update is rejected (ValueError, nobody was called), or because the LAST
@@ -858,7 +1006,7 @@ Section TrackerCb.
     (rc_calls (trkc_step nattrs en st op) = [] /\ rc_deliv (trkc_step nattrs en st op) = [] /\ e = Py ValueError) \/
     raised_last en (rc_deliv (trkc_step nattrs en st op)) e.
   Proof.
-    intros R. apply reachable_any_sinv in R. destruct op as [now msg ts|now|m1|ev cb|ev cb]; simpl; try discriminate.
+    intros R. apply reachable_any_sinv in R. destruct op as [now msg ts|now|m1|ev cb|ev cb|now msg ts|newttl|]; simpl; try discriminate.
     - destruct (update_c en st now msg ts R) as [[_ E]|(_ & I2 & E)]; rewrite E; simpl; [intros [= <-]; now left|].
       destruct (snd (brkc_propagate en (t_broker st) _ _)) as [|e0] eqn:EP; simpl.
       + intros H. right. apply raised_last_app. apply cleanup_exn; [|assumption]. apply (s_nodup _ (sinv_after_insert _ _ _ I2)).
@@ -867,6 +1015,12 @@ Section TrackerCb.
         repeat split; auto. intros X. unfold upd_event in X. destruct (idict_mem (t_tracks st) (m_mmsi msg)); discriminate.
     - intros H. right. apply cleanup_exn; [apply (s_nodup _ R) | assumption].
     - intros H. right. apply pop_track_exn; [apply (s_nodup _ R) | assumption].
+    - destruct (insert_or_update_c en st (m_mmsi msg) (trk_msg_to_track nattrs msg ts now) (s_nodup _ R)) as [[_ E]|[_ E]];
+        rewrite E; simpl; [intros [= <-]; now left|].
+      destruct (snd (brkc_propagate en (t_broker st) _ _)) as [|e0] eqn:EP; simpl; [discriminate|].
+      intros [= <-]. right. destruct (propagate_raise_last en _ _ _ _ EP) as (pre & cb & E1 & E2).
+      exists pre, cb, (upd_event st (m_mmsi msg)), (upd_result st (m_mmsi msg) (trk_msg_to_track nattrs msg ts now)).
+      repeat split; auto. intros X. unfold upd_event in X. destruct (idict_mem (t_tracks st) (m_mmsi msg)); discriminate.
   Qed.
 
   (* ================================================================================= 8. the quiet environment *)
@@ -906,7 +1060,7 @@ Section TrackerCb.
   Proof.
     unfold trkc_cleanup, trk_cleanup. destruct (t_ttl st); [|reflexivity]. destruct (t_oldest st); [|reflexivity].
     destruct (_ <? _); [reflexivity|]. destruct (trk_cleanup_scan _ _ _ _ _) as [o' del]. simpl.
-    now rewrite pop_all_quiet.
+    rewrite pop_all_quiet. simpl. destruct (trk_pop_all st del) as [s1 c]. reflexivity.
   Qed.
 
   Lemma set_oldest_broker (st : tracker) ts : t_broker (trk_set_oldest_timestamp st ts) = t_broker st.
@@ -923,7 +1077,7 @@ Section TrackerCb.
       destruct (_ <? _); [split; reflexivity|]. simpl. rewrite propagate_quiet. simpl. rewrite app_nil_r.
       split; [reflexivity | rewrite set_oldest_broker; reflexivity].
     - unfold trkc_insert_track, trk_insert_track. simpl. rewrite propagate_quiet. simpl. rewrite app_nil_r.
-      split; [reflexivity | rewrite set_oldest_broker; reflexivity].
+      rewrite !set_oldest_broker. split; [reflexivity | simpl; apply set_oldest_broker].
   Qed.
 
   Lemma ensure_broker (st : tracker) ts : t_broker (fst (trk_ensure_timestamp_constraints st ts)) = t_broker st.
@@ -939,7 +1093,7 @@ Section TrackerCb.
     rc_deliv (trkc_step nattrs trk_env_quiet st op) = trk_deliver (t_broker st) (r_calls (trk_step nattrs st op)) /\
     (forall m, op = OpPop m -> rc_ret (trkc_step nattrs trk_env_quiet st op) = snd (trk_pop_track st m)).
   Proof.
-    destruct op as [now msg ts|now|m|ev cb|ev cb]; simpl.
+    destruct op as [now msg ts|now|m|ev cb|ev cb|now msg ts|newttl|]; simpl.
     - unfold trkc_update, trk_update. pose proof (ensure_broker st (tr_lu (trk_msg_to_track nattrs msg ts now))) as B1.
       destruct (trk_ensure_timestamp_constraints st _) as [st1 [e|]]; simpl in *; [repeat split; discriminate|].
       destruct (insert_or_update_quiet st1 (m_mmsi msg) (trk_msg_to_track nattrs msg ts now)) as (E & B2). rewrite E.
@@ -953,6 +1107,10 @@ Section TrackerCb.
       intros m' [= <-]. reflexivity.
     - repeat split; discriminate.
     - repeat split; discriminate.
+    - destruct (insert_or_update_quiet st (m_mmsi msg) (trk_msg_to_track nattrs msg ts now)) as (E & _). rewrite E.
+      destruct (trk_insert_or_update st _ _) as [[st2 calls] e]. simpl. repeat split; discriminate.
+    - repeat split; discriminate.
+    - repeat split; discriminate.
   Qed.
 
   Lemma trkc_run_quiet : forall (h : list (trk_op V)) (st : tracker),
@@ -964,14 +1122,11 @@ Section TrackerCb.
   Qed.
 
   (* every state of the model with quiet subscribers is a state the theorems of this file speak about *)
-  Lemma reachable_old_c (st : tracker) : reachable nattrs st -> reachable_c st.
+  Lemma reachable_old_any (st : tracker) : reachable nattrs st -> reachable_any st.
   Proof.
-    induction 1 as [ttl o|st op R IH]; [constructor|].
-    destruct (trkc_step_quiet st op) as (E1 & E2 & E3 & _). rewrite <- E1.
-    apply reach_c_step; [assumption | apply env_ok_quiet|].
-    apply reachable_inv in R. destruct op as [now msg ts|now|m|ev cb|ev cb]; try exact Logic.I; unfold step_ok; rewrite E2, E3.
-    - simpl. destruct (update_spec nattrs st now msg ts R) as [[_ E]|(_ & _ & E)]; rewrite E; simpl; auto.
-    - simpl. destruct (trk_cleanup st now). simpl. now left.
+    induction 1 as [ttl o|st op R IH OKop]; [constructor|].
+    destruct (trkc_step_quiet st op) as (E1 & _). rewrite <- E1.
+    apply reach_any_step; [assumption | apply env_ok_quiet | assumption].
   Qed.
 End TrackerCb.
 
@@ -981,8 +1136,8 @@ Section ReachableCb.
   Variable nattrs : nat.
 
   Lemma step_cfg_reachable_c (en : trk_env V) (st : trk_tracker V) op : reachable_any nattrs st ->
-    t_ordered (rc_state (trkc_step nattrs en st op)) = t_ordered st /\
-    t_ttl (rc_state (trkc_step nattrs en st op)) = t_ttl st.
+    t_ordered (rc_state (trkc_step nattrs en st op)) = sp_mode (t_ordered st) (abs_op op) /\
+    t_ttl (rc_state (trkc_step nattrs en st op)) = sp_ttl_after (t_ttl st) (abs_op op).
   Proof. intros R. apply step_cfg_c. now apply reachable_any_sinv. Qed.
 
   Lemma step_events_reachable_c (en : trk_env V) (st : trk_tracker V) op m : reachable_any nattrs st ->
@@ -1008,48 +1163,59 @@ Section ReachableCb.
   Qed.
 End ReachableCb.
 
-(* ================================================================================= the finding *)
-(* Without the guard of `reachable_c` C13's first half is FALSE of pyais: once the exception of a subscriber has left
+(* ================================================================================= the repaired defect *)
+(* Before `fix: keep oldest_timestamp a lower bound of the tracks when a subscriber callback raises` (the bodies
+   `*_unrepaired` of Model/Tracker.v) C13's first half was FALSE of pyais: once the exception of a subscriber had left
    update() (a CREATED subscriber raises: the track is in the table, `__set_oldest_timestamp` was skipped) or cleanup()
    (a DELETED subscriber raises something else than KeyError: `oldest_timestamp` was advanced by the scan, the loop over
-   the expired MMSIs ended at the first pop), oldest_timestamp is no lower bound of the tracks any more; a later
-   cleanup() returns early -- and normally -- although an expired track remains. *)
-Definition expiry_statement_any_state : Prop :=
-  forall (V : Type) (nattrs : nat) (en : trk_env V) (st : trk_tracker V) (op : trk_op V) (now T : Z),
-    reachable_any nattrs st -> env_ok en -> t_ttl st = Some T ->
-    (op = OpCleanup now \/ exists msg ts, op = OpUpdate now msg ts) ->
-    rc_exn (trkc_step nattrs en st op) = None ->
-    sp_ttl_ok T now (map (@tr_lu V) (trk_tracks (rc_state (trkc_step nattrs en st op))))
-              (deleted_lus (rc_calls (trkc_step nattrs en st op))).
+   the expired MMSIs ended at the first pop), oldest_timestamp was no lower bound of the tracks any more; a later
+   cleanup() returned early -- and normally -- although an expired track remained.  The two witnesses, on the unrepaired
+   and on the repaired bodies: *)
 
-(* a CREATED subscriber raises KeyError for the first vessel; 13 ticks later (ttl 12) cleanup() keeps the track *)
+(* a CREATED subscriber raises KeyError for the first vessel; 13 ticks later (ttl 12) cleanup() is called *)
 Definition witness_created : list (trk_env Z * trk_op Z) :=
   let en := trk_env_of [(7, CREATED, None, Py KeyError)] [] in
   [(en, OpAttach CREATED 7); (en, OpUpdate 0 (mkMsg 111 [MPresent (Some 1)]) (Some 0))].
 
 (* a DELETED subscriber raises ValueError: cleanup() at 12 pops 111, is left by the exception, keeps 222 (age 12);
-   oldest_timestamp is 8 by then, so cleanup() at 13 returns early *)
+   cleanup() is called again at 13 *)
 Definition witness_deleted : list (trk_env Z * trk_op Z) :=
   let en := trk_env_of [(7, DELETED, None, Py ValueError)] [] in
   [(en, OpAttach DELETED 7); (en, OpUpdate 0 (mkMsg 111 [MPresent (Some 1)]) (Some 0));
    (en, OpUpdate 0 (mkMsg 222 [MPresent (Some 2)]) (Some 0)); (en, OpUpdate 8 (mkMsg 333 [MPresent (Some 3)]) (Some 8));
    (en, OpCleanup 12)].
 
-Theorem expiry_refuted_after_callback_exception : ~ expiry_statement_any_state.
+(* unrepaired: oldest_timestamp stays None, cleanup() returns at once and the track (age 13 >= 12) remains;
+   repaired: the cache is 0, the track expires *)
+Theorem unrepaired_refuted_after_callback_exception :
+  let su := fst (trkc_run_unrepaired 1 (trk_init (Some 12) false) witness_created) in
+  let ru := trkc_step_unrepaired 1 trk_env_quiet su (OpCleanup 13) in
+  let sr := fst (trkc_run 1 (trk_init (Some 12) false) witness_created) in
+  let rr := trkc_step 1 trk_env_quiet sr (OpCleanup 13) in
+  (t_oldest su = None /\ rc_exn ru = None /\
+   ~ sp_ttl_ok 12 13 (map (@tr_lu Z) (trk_tracks (rc_state ru))) (deleted_lus (rc_calls ru))) /\
+  (t_oldest sr = Some 0 /\ rc_exn rr = None /\ trk_tracks (rc_state rr) = [] /\ deleted_lus (rc_calls rr) = [0]).
 Proof.
-  intros H.
-  specialize (H Z 1%nat trk_env_quiet (fst (trkc_run 1 (trk_init (Some 12) false) witness_created)) (OpCleanup 13) 13 12).
-  assert (X : sp_ttl_ok 12 13 [0] []).
-  { apply H; [apply run_reachable_any; constructor | apply env_ok_quiet | reflexivity | now left | reflexivity]. }
-  destruct X as [X _]. inversion X as [|? ? X1 X2]; subst. cbv beta in X1. lia.
+  intros su ru sr rr. split; [|vm_compute; repeat split].
+  split; [reflexivity|]. split; [reflexivity|].
+  assert (E : map (@tr_lu Z) (trk_tracks (rc_state ru)) = [0]) by (vm_compute; reflexivity).
+  rewrite E. intros [X _]. inversion X as [|? ? X1 X2]; subst. cbv beta in X1. lia.
 Qed.
 
-Theorem expiry_refuted_after_aborted_cleanup :
-  let st := fst (trkc_run 1 (trk_init (Some 12) false) witness_deleted) in
-  let res := trkc_step 1 trk_env_quiet st (OpCleanup 13) in
-  reachable_any 1 st /\ rc_exn res = None /\ ~ sp_ttl_ok 12 13 (map (@tr_lu Z) (trk_tracks (rc_state res))) (deleted_lus (rc_calls res)).
+(* unrepaired: the aborted cleanup() at 12 has advanced oldest_timestamp to 8, cleanup() at 13 returns early and 222
+   (age 13) remains; repaired: the cache is still 0 after the aborted cleanup(), cleanup() at 13 removes 222 *)
+Theorem unrepaired_refuted_after_aborted_cleanup :
+  let su := fst (trkc_run_unrepaired 1 (trk_init (Some 12) false) witness_deleted) in
+  let ru := trkc_step_unrepaired 1 trk_env_quiet su (OpCleanup 13) in
+  let sr := fst (trkc_run 1 (trk_init (Some 12) false) witness_deleted) in
+  let rr := trkc_step 1 trk_env_quiet sr (OpCleanup 13) in
+  (t_oldest su = Some 8 /\ rc_exn ru = None /\
+   ~ sp_ttl_ok 12 13 (map (@tr_lu Z) (trk_tracks (rc_state ru))) (deleted_lus (rc_calls ru))) /\
+  (t_oldest sr = Some 0 /\ rc_exn rr = None /\ map (@tr_mmsi Z) (trk_tracks (rc_state rr)) = [333] /\
+   deleted_lus (rc_calls rr) = [0]).
 Proof.
-  intros st res. split; [apply run_reachable_any; constructor|]. split; [reflexivity|].
-  assert (E : map (@tr_lu Z) (trk_tracks (rc_state res)) = [0; 8]) by (vm_compute; reflexivity).
+  intros su ru sr rr. split; [|vm_compute; repeat split].
+  split; [reflexivity|]. split; [reflexivity|].
+  assert (E : map (@tr_lu Z) (trk_tracks (rc_state ru)) = [0; 8]) by (vm_compute; reflexivity).
   rewrite E. intros [X _]. inversion X as [|? ? X1 X2]; subst. cbv beta in X1. lia.
 Qed.
